@@ -8,4 +8,4 @@ Extraction "model_core.ml"
   Heap.empty_heap Heap.lib_live
   CoreOps.run_op CoreOps.run_ops CoreOps.empty_state CoreOps.dump_state CoreOps.dump_node CoreOps.dump_depth
   CoreOps.owned_blocks CoreOps.share_blocks CoreOps.live_count CoreOps.fail_kth CoreOps.fail_mask CoreOps.err_name
-  CoreOps.item_of.
+  CoreOps.item_of CoreOps.live_roots.
